@@ -272,7 +272,11 @@ package encoder
 //@ spec onFastPath(t) := typeAddr.BaseTypeAddr <= t && t <= typeAddr.MaxTypeAddr
 //@ spec gridded(t) := (t - typeAddr.BaseTypeAddr) % pow2(typeAddr.AddrShift) == 0
 //@ spec cacheShape() := typeAddr != nil && (typeAddr.AddrShift == 0 || typeAddr.AddrShift == 5 || typeAddr.AddrShift == 6) && len(cachedOpcodeSets) == (typeAddr.AddrRange >> typeAddr.AddrShift) + 1 && (typeAddr.AddrRange == typeAddr.MaxTypeAddr - typeAddr.BaseTypeAddr || typeAddr.BaseTypeAddr > typeAddr.MaxTypeAddr)
-//@ spec slotsOwned() := forall i :: 0 <= i && i < len(cachedOpcodeSets) && cachedOpcodeSets[i] != nil ==> onFastPath(cachedOpcodeSets[i].Type) && gridded(cachedOpcodeSets[i].Type) && slot(cachedOpcodeSets[i].Type) == i
+// baseProgram(p): p is the program the compiler built for a type, not a copy narrowed by a field query
+// (provenance predicate: only (*Compiler).compile establishes it). A cache slot may only hold base
+// programs, otherwise the result of a later call would depend on the query of an earlier one (C11).
+//@ ufun baseProgram(Int) Bool
+//@ spec slotsOwned() := forall i :: 0 <= i && i < len(cachedOpcodeSets) && cachedOpcodeSets[i] != nil ==> onFastPath(cachedOpcodeSets[i].Type) && gridded(cachedOpcodeSets[i].Type) && slot(cachedOpcodeSets[i].Type) == i && baseProgram(cachedOpcodeSets[i])
 
 //@ func initEncoder()
 //@   props C14
@@ -295,7 +299,7 @@ package encoder
 //@ func (*Compiler).compile(c, typeptr) (set, err)
 //@   props C14
 //@   trusted reflection-driven opcode compiler; assumed to build the program of exactly the requested type (codeToOpcodeSet stores typ in OpcodeSet.Type)
-//@   ensures err == nil ==> set != nil && set.Type == typeptr
+//@   ensures err == nil ==> set != nil && set.Type == typeptr && baseProgram(set)
 //@   ensures forall i :: 0 <= i && i < len(cachedOpcodeSets) ==> cachedOpcodeSets[i] == old(cachedOpcodeSets[i]) && (cachedOpcodeSets[i] != nil ==> cachedOpcodeSets[i].Type == old(cachedOpcodeSets[i].Type))
 //@   assigns OpcodeSet.Type
 
@@ -317,7 +321,7 @@ package encoder
 //@   assigns OpcodeSet.Type, Option.Flag
 
 //@ func CompileToGetCodeSet(ctx, typeptr) (set, err)
-//@   props C14 C06
+//@   props C14 C06 C11
 //@   alsotags race
 //@   requires ctx != nil
 //@   requires[global] typeAddr != nil ==> slotsOwned()
